@@ -1277,3 +1277,77 @@ Proof.
   split; [exact N|]. split; [exact S|]. split; [apply same_members_length; [exact N|apply (wf_nodes g W)|exact S]|].
   intros u v He. apply A in He. destruct He as [[]|He]. exact He.
 Qed.
+
+(* ---------------- directed_percolate_network = the timing builder on the drawn values ---------------- *)
+(* a rule value is consistent with a rate when it is a drawn number exactly if the rate is positive *)
+Definition drawn (rate : Q) (x : xtime) : bool :=
+  match x with Some _ => Qltb 0 rate | None => negb (Qltb 0 rate) end.
+Definition draws_x (x : xtime) : list Q := match x with Some d => [d] | None => [] end.
+
+Lemma exec_draw_time {A} rate (k : xtime -> samp A) x rest tr : drawn rate x = true ->
+  exists tr', exec (draw_time rate k) (draws_x x ++ rest) tr = exec (k x) rest tr'.
+Proof.
+  unfold drawn, draw_time. destruct x as [d|]; intro H.
+  - rewrite H. cbn [draws_x app exec].
+    assert (Qeqb rate 0 = false) as ->.
+    { unfold Qeqb. destruct (Qeq_bool rate 0) eqn:E; [|reflexivity]. apply Qeq_bool_iff in E.
+      unfold Qltb in H. destruct (Qlt_le_dec 0 rate) as [L|L]; [|discriminate]. rewrite E in L. exfalso. exact (Qlt_irrefl _ L). }
+    eexists. reflexivity.
+  - apply negb_true_iff in H. rewrite H. cbn [draws_x app]. eexists. reflexivity.
+Qed.
+
+Lemma bind_draw_time {A B} rate (k : xtime -> samp A) (f : A -> samp B) :
+  bind (draw_time rate k) f = draw_time rate (fun x => bind (k x) f).
+Proof. unfold draw_time. destruct (Qltb 0 rate); reflexivity. Qed.
+
+Section DPN.
+Variable dur : node -> xtime.
+Variable delay : node -> node -> xtime.
+Variables tau gamma : Q.
+
+(* the numbers expovariate returns, in the order of the calls *)
+Definition inner_draws (u : node) (nbrs : list node) : list Q := flat_map (fun v => draws_x (delay u v)) nbrs.
+Definition outer_draws (g : graph) (nodes : list node) : list Q :=
+  flat_map (fun u => draws_x (dur u) ++ inner_draws u (gadj g u)) nodes.
+
+Lemma exec_dpn_inner {B} w u du (f : pgraph -> samp B) : forall nbrs h rest tr,
+  (forall v, In v nbrs -> drawn tau (delay u v) = true) ->
+  exists tr', exec (bind (dpn_inner tau w u du nbrs h) f) (inner_draws u nbrs ++ rest) tr
+              = exec (f (timing_inner delay w u du nbrs h)) rest tr'.
+Proof.
+  induction nbrs as [|v t IH]; intros h rest tr Hd.
+  - cbn. eexists. reflexivity.
+  - cbn [dpn_inner]. rewrite bind_draw_time. unfold inner_draws. cbn [flat_map]. rewrite <- app_assoc.
+    destruct (exec_draw_time tau (fun x => bind (dpn_inner tau w u du t (if xle x du then p_add_edge w h u v x else h)) f)
+                (delay u v) (flat_map (fun v0 => draws_x (delay u v0)) t ++ rest) tr (Hd v (or_introl eq_refl))) as [tr1 E1].
+    rewrite E1.
+    destruct (IH (if xle (delay u v) du then p_add_edge w h u v (delay u v) else h) rest tr1 (fun v' Hv' => Hd v' (or_intror Hv'))) as [tr2 E2].
+    exists tr2. exact E2.
+Qed.
+
+Lemma exec_dpn_outer g w : forall nodes h tr,
+  (forall u, In u nodes -> drawn gamma (dur u) = true /\ forall v, In v (gadj g u) -> drawn tau (delay u v) = true) ->
+  exists tr', exec (dpn_outer g tau gamma w nodes h) (outer_draws g nodes) tr
+              = (Ok (fold_left (fun h u => timing_inner delay w u (dur u) (gadj g u) (p_add_node w h u (dur u))) nodes h), tr').
+Proof.
+  induction nodes as [|u t IH]; intros h tr Hd.
+  - cbn. eexists. reflexivity.
+  - cbn [dpn_outer outer_draws flat_map fold_left]. rewrite <- !app_assoc.
+    destruct (Hd u (or_introl eq_refl)) as [Hu Hv].
+    destruct (exec_draw_time gamma (fun du => bind (dpn_inner tau w u du (gadj g u) (p_add_node w h u du)) (dpn_outer g tau gamma w t))
+                (dur u) (inner_draws u (gadj g u) ++ outer_draws g t) tr Hu) as [tr1 E1].
+    fold (outer_draws g t). rewrite E1.
+    destruct (exec_dpn_inner w u (dur u) (dpn_outer g tau gamma w t) (gadj g u) (p_add_node w h u (dur u)) (outer_draws g t) tr1 Hv) as [tr2 E2].
+    rewrite E2. apply IH. intros u' Hu'. apply Hd. right. exact Hu'.
+Qed.
+
+(* directed_percolate_network on the draws that the rules (dur, delay) stand for is the
+   timing builder with those rules *)
+Lemma directed_percolate_network_spec g w :
+  (forall u, In u (gnodes g) -> drawn gamma (dur u) = true /\ forall v, In v (gadj g u) -> drawn tau (delay u v) = true) ->
+  exists tr', exec (directed_percolate_network g tau gamma w) (outer_draws g (gnodes g)) []
+              = (Ok (nm_perc_timing dur delay g w), tr').
+Proof.
+  intro H. unfold directed_percolate_network, nm_perc_timing. apply exec_dpn_outer. exact H.
+Qed.
+End DPN.
